@@ -677,12 +677,15 @@ Proof.
       destruct (after_bump_soft s4 r A4 j) as (-> & _). auto.
 Qed.
 
-Lemma CV_mutate_push W s b f : PInv s -> CV W s -> b < length s -> CV W (mutate s b f).
+(* the storage of registry b is replaced (a mutator, or rebuild()), then changed(b) runs *)
+Lemma CV_setreg_push W s b g' : PInv s -> CV W s -> b < length s ->
+  CV W (after_bump (set s b (mkRS g' (rs_caches (get s b)) (rs_bases (get s b)) (rs_ro (get s b))
+                                  (rs_subs (get s b)) (rs_vro (get s b)) (rs_vgen (get s b))
+                                  (rs_flavour (get s b)))) b).
 Proof.
-  intros P C Lb. unfold mutate.
-  destruct (Nat.eqb (generation (f (rs_reg (get s b)))) (generation (rs_reg (get s b)))); auto.
+  intros P C Lb.
   set (s1 := set s b _).
-  assert (K : skel_eq s s1) by (exact (set_reg_skel s b (f (rs_reg (get s b))))).
+  assert (K : skel_eq s s1) by (exact (set_reg_skel s b g')).
   apply (CV_after_bump_push W s s1 b); auto.
   - eapply PInv_skel; eauto.
   - unfold s1. rewrite set_length. auto.
@@ -691,6 +694,13 @@ Proof.
     apply andb_true_iff in E. destruct E as (E & _). apply Nat.eqb_eq in E. subst. reflexivity.
   - intros j N. unfold s1. rewrite get_set_other; auto.
   - intros y N. unfold Bs, s1. rewrite get_set_other; auto.
+Qed.
+
+Lemma CV_mutate_push W s b f : PInv s -> CV W s -> b < length s -> CV W (mutate s b f).
+Proof.
+  intros P C Lb. unfold mutate.
+  destruct (Nat.eqb (generation (f (rs_reg (get s b)))) (generation (rs_reg (get s b)))); auto.
+  apply CV_setreg_push; auto.
 Qed.
 
 (* ---- _setBases of a push registry: everything up to changed() leaves storages and caches alone *)
@@ -867,19 +877,20 @@ Proof.
   - apply cv_empty. auto.
 Qed.
 
-Lemma CV_mutate_ver W s b f : VInv s -> CV W s -> b < length s ->
-  (forall g, generation g <= generation (f g)) -> CV W (mutate s b f).
+Lemma CV_setreg_ver W s b g' : VInv s -> CV W s -> b < length s ->
+  generation (rs_reg (get s b)) <= generation g' -> generation g' <> generation (rs_reg (get s b)) ->
+  CV W (after_bump (set s b (mkRS g' (rs_caches (get s b)) (rs_bases (get s b)) (rs_ro (get s b))
+                                  (rs_subs (get s b)) (rs_vro (get s b)) (rs_vgen (get s b))
+                                  (rs_flavour (get s b)))) b).
 Proof.
-  intros V C Lb Mf. unfold mutate.
-  destruct (Nat.eqb (generation (f (rs_reg (get s b)))) (generation (rs_reg (get s b)))) eqn:Eg; auto.
-  apply Nat.eqb_neq in Eg.
+  intros V C Lb Mf Eg.
   set (s1 := set s b _).
   assert (F1 : rs_flavour (get s1 b) = Verifying).
   { unfold s1. rewrite get_set_same by auto. cbn. apply V. auto. }
   assert (L1 : length s1 = length s) by (unfold s1; apply set_length).
   rewrite after_bump_ver by (auto; lia).
   destruct (lookup_changed_ver false s1 b F1) as (L' & O' & G'); [lia|].
-  assert (Gb : rs_reg (get s1 b) = f (rs_reg (get s b))) by (unfold s1; rewrite get_set_same; auto).
+  assert (Gb : rs_reg (get s1 b) = g') by (unfold s1; rewrite get_set_same; auto).
   apply (CV_ver_touch W s _ b); auto; try lia.
   - intros i N _. rewrite O' by auto. unfold s1. apply get_set_other; auto.
   - intros i N Li. rewrite O' by auto. unfold s1. rewrite get_set_other by auto. apply get_oob_caches; auto.
@@ -890,6 +901,14 @@ Proof.
   - intros j. unfold gen_of. destruct (Nat.eq_dec j b) as [->|N].
     + rewrite G'. cbn [rs_reg]. rewrite Gb. intros E. congruence.
     + intros _. rewrite O' by auto. unfold s1. rewrite get_set_other; auto.
+Qed.
+
+Lemma CV_mutate_ver W s b f : VInv s -> CV W s -> b < length s ->
+  (forall g, generation g <= generation (f g)) -> CV W (mutate s b f).
+Proof.
+  intros V C Lb Mf. unfold mutate.
+  destruct (Nat.eqb (generation (f (rs_reg (get s b)))) (generation (rs_reg (get s b)))) eqn:Eg; auto.
+  apply Nat.eqb_neq in Eg. apply CV_setreg_ver; auto.
 Qed.
 
 Lemma CV_set_bases_ver W s r bs : VInv s -> CV W s -> r < length s -> CV W (set_bases s r bs).
@@ -1000,6 +1019,9 @@ Proof.
   - apply andb_true_iff in Wf. destruct Wf as (Lr & Hb). apply Nat.ltb_lt in Lr.
     pose proof (forallb_ltb _ _ Hb).
     destruct fl; [apply CV_set_bases_push | apply CV_set_bases_ver]; auto.
+  - (* rebuild(): the storage is rebuilt (generation strictly larger), then changed() *)
+    apply Nat.ltb_lt in Wf. pose proof (rebuild_gen W (rs_reg (get s r))).
+    destruct fl; [apply CV_setreg_push | apply CV_setreg_ver]; auto; lia.
 Qed.
 
 (* ---- re-basing a specification: Specification.changed reaching the lookup objects *)
